@@ -37,7 +37,7 @@ static void sweep_case(long item)
 }
 struct case_budget chk_budget(const char *tier)
 {
-        struct case_budget b = { N_SWEEP, strcmp(tier, "thorough") == 0 ? 1000000 : 50000 };
+        struct case_budget b = { N_SWEEP, strcmp(tier, "thorough") == 0 ? 6000000 : 150000 };
         return b;
 }
 void chk_run_case(uint64_t seed, long c, bool is_sweep)
